@@ -190,6 +190,8 @@ def o_sec_roundtrip(case):
         x, ys = _first_x_with_point(case["x0"])
         y = ys[case["odd"] % len(ys)]
     comp = case["compressed"]
+    if x % 4 == 0:
+        _other_curve_first(refenc.sec_encode(x, y, True))
     key = net.keys.public((x, y), is_compressed=comp)
     labels = ["x-leading-zero-byte" if x < (1 << 248) else "x-full", "y-odd" if y & 1 else "y-even",
               "y-leading-zero-byte" if y < (1 << 248) else "y-full", "from=" + ("d" if "d" in case else "x")]
@@ -254,8 +256,25 @@ def _analyse_blob(blob):
     return labels + ["ref=reject:" + reason], None, reason
 
 
+def _other_curve_first(blob):
+    """the same bytes are first offered to the SEC decoder of another curve (secp256r1), whatever comes of it: work done
+    for one curve must not colour what a key of another curve decodes to"""
+    from pycoin.ecdsa.secp256r1 import secp256r1_generator
+    try:
+        sec_to_public_pair(blob, secp256r1_generator)
+    except Exception:      # noqa - the outcome on the other curve is not under test
+        pass
+    if len(blob) >= 33:
+        try:
+            secp256r1_generator.points_for_x(int.from_bytes(blob[1:33], "big"))
+        except Exception:  # noqa
+            pass
+
+
 def o_sec_strict(case):
     blob = bytes.fromhex(case["blob"])
+    if len(blob) % 4 == 1 and blob[-1] % 4 == 0:       # one blob in four of the usual lengths (33 / 65 bytes)
+        _other_curve_first(blob)
     net = NETS[case.get("net", "BTC")]
     labels, ref, reason = _analyse_blob(blob)
     KeyClass = _key_class(case.get("net", "BTC"))
